@@ -235,9 +235,10 @@ Section ExactMain.
     destruct s as [b|ty fmt enum cst nv sv ik items ai mni mxi uq props req ap mnp mxp allo anyo oneo no ref dflt title];
       [discriminate|].
     intros Hf Hs Hn. cbn [shape] in Hs.
+    pose proof Hf as Hfi. apply frag_obj_inv in Hfi. destruct Hfi as (nl0 & k0 & _ & -> & -> & -> & _ & ->).
     destruct (classify _ _ _ _ _ _ _ _ _ _ _ _ _ _ _ _ _ _ _ _ _ _ _ _) as [[nl k]|] eqn:Hcl; [|contradiction].
     pose proof Hcl as Hcases. apply classify_cases in Hcases.
-    destruct Hcases as [(l & tt & -> & -> & Hsp & Hk)|(-> & -> & _ & _ & _ & _ & _ & _ & _ & _ & _ & _ & _ & Hrk)].
+    destruct Hcases as [(l & tt & -> & -> & Hsp & Hk)|(-> & -> & _ & _ & _ & _ & _ & -> & _ & _ & _ & _ & _ & Hrk)].
     - destruct nl.
       + exfalso. cbn [nullable] in Hn.
         destruct (split_type_cases l true tt Hsp) as [[H _]|(_ & _ & [->| ->])]; [discriminate| |].
@@ -257,11 +258,12 @@ Section ExactMain.
         * destruct Hs as (ts & Hs & _). unfold has in Hs. rewrite Hs. reflexivity.
         * destruct Hs as (i & Hs & _). unfold has in Hs. rewrite Hs. destruct c; reflexivity.
         * destruct Hs as (i & Hs & _). unfold has in Hs. rewrite Hs. destruct c; reflexivity.
-    - destruct Hrk as [(r & -> & ->)|[(-> & ->)|(bs & tg & -> & -> & -> & _)]]; cbn [kshape] in Hs.
+    - destruct Hrk as [(r & -> & ->)|[(-> & ->)|(bs & -> & -> & _)]]; cbn [kshape] in Hs.
       + destruct Hs as (_ & d & Hd & Hnm). unfold has in Hd. rewrite Hd.
         destruct d; try reflexivity. exfalso. apply Hnm. reflexivity.
       + unfold has in Hs. rewrite Hs. reflexivity.
-      + destruct Hs as (n & vs & deny & bes & names & ids & Hs & _). unfold has in Hs. rewrite Hs. reflexivity.
+      + (* a union: [nullable] answers "maybe" *)
+        exfalso. unfold NFUEL in Hn. cbn [nullable] in Hn. discriminate Hn.
   Qed.
 
   (* ... and does not reach an Option through Box / newtype layers either (a "$ref" to a
@@ -275,9 +277,10 @@ Section ExactMain.
       (destruct s as [b|ty fmt enum cst nv sv ik items ai mni mxi uq props req ap mnp mxp allo anyo oneo no ref dflt title];
         [discriminate|]);
       intros Hf Hs Hn; cbn [shape] in Hs;
+      pose proof Hf as Hfi; apply frag_obj_inv in Hfi; destruct Hfi as (nl0 & k0 & _ & -> & -> & -> & _ & ->);
       (destruct (classify _ _ _ _ _ _ _ _ _ _ _ _ _ _ _ _ _ _ _ _ _ _ _ _) as [[nl k]|] eqn:Hcl; [|contradiction]);
       pose proof Hcl as Hcases; apply classify_cases in Hcases;
-      (destruct Hcases as [(l & tt & -> & -> & Hsp & Hk)|(-> & -> & _ & _ & _ & _ & _ & _ & _ & _ & _ & _ & _ & Hrk)]).
+      (destruct Hcases as [(l & tt & -> & -> & Hsp & Hk)|(-> & -> & _ & _ & _ & _ & _ & -> & _ & _ & _ & _ & _ & Hrk)]).
     1,3: (destruct nl;
       [ exfalso; cbn [nullable] in Hn;
         destruct (split_type_cases l true tt Hsp) as [[H _]|(_ & _ & [->| ->])];
@@ -291,12 +294,12 @@ Section ExactMain.
         try (destruct Hs as (? & Hs & _); unfold has in Hs; rewrite Hs; try reflexivity;
              match goal with c : _ |- _ => destruct c; reflexivity end) ]).
     - (* fuel 0, "$ref" or no type: nullable answers true for a "$ref" *)
-      destruct Hrk as [(r & -> & ->)|[(-> & ->)|(bs & tg & -> & -> & -> & _)]]; cbn [kshape] in Hs.
+      destruct Hrk as [(r & -> & ->)|[(-> & ->)|(bs & -> & -> & _)]]; cbn [kshape] in Hs.
       + cbn [nullable] in Hn. discriminate Hn.
       + cbn [reaches_option]. unfold has in Hs. rewrite Hs. reflexivity.
-      + destruct Hs as (n & vs & deny & bes & names & ids & Hs & _). cbn [reaches_option]. unfold has in Hs. rewrite Hs. reflexivity.
-    - destruct Hrk as [(r & -> & ->)|[(-> & ->)|(bs & tg & -> & -> & -> & _)]]; cbn [kshape] in Hs.
-      3: { destruct Hs as (n & vs & deny & bes & names & ids & Hs & _). cbn [reaches_option]. unfold has in Hs. rewrite Hs. reflexivity. }
+      + exfalso. cbn [nullable] in Hn. discriminate Hn.
+    - destruct Hrk as [(r & -> & ->)|[(-> & ->)|(bs & -> & -> & _)]]; cbn [kshape] in Hs.
+      3: { exfalso. cbn [nullable] in Hn. discriminate Hn. }
       + destruct Hs as (Hri & _). cbn [nullable] in Hn.
         unfold ref_id in Hri. destruct (ref_index_assoc D r 1 t Hri) as (j & sr & Hnth & Hi & Ha).
         unfold resolve_ref in Hn. rewrite Ha in Hn.
@@ -392,7 +395,7 @@ Section ExactMain.
     apply schema_ind'.
     - intros b Hf. discriminate Hf.
     - intros ty fmt enum cst nv sv ik items ai mni mxi uq props req ap mnp mxp allo anyo oneo no ref dflt title
-             IHitems _ IHprops IHap _ _ _ _.
+             IHitems _ IHprops IHap _ _ IHone _.
       intros Hf Hne t Hs ft.
       pose proof Hf as Hfi. apply frag_obj_inv in Hfi. destruct Hfi as (nl & k & Hcl & -> & -> & -> & Hone & ->).
       pose proof Hcl as Hcases. apply classify_cases in Hcases.
@@ -438,7 +441,7 @@ Section ExactMain.
              end /\
                   leaf_x re D T ex (Some l) enum None sv ik items mni mxi props req ap None false false d = true).
         { intros t0 Hk0 Hnle d Hd.
-          destruct k as [| | | |mx mn pat|r|raws|deny| | |c|c|r| |tg]; try contradiction; cbn [kshape] in Hk0;
+          destruct k as [| | | |mx mn pat|r|raws|deny| | |c|c|r| |tg|]; try contradiction; cbn [kshape] in Hk0;
             cbn beta iota in Hsv, Hlen, Henum, Hikk, Hobj.
           - unfold has in Hk0. rewrite Hk0 in Hd. injection Hd as <-. split; [exact I|]. subst tt enum sv.
             cbn [leaf_x]. unfold common, ty_rep. cbn [forallb]. rewrite (Hvt (JBool true) eq_refl). reflexivity.
@@ -555,7 +558,34 @@ Section ExactMain.
           intros _. destruct k; try exact I. discriminate Hne.
         * apply (Hred t Hs). intros d Hd. apply (Hleaf t Hs); [discriminate|exact Hd].
       + (* reference / anything / tagged oneOf *)
-        destruct Hrk as [(r & -> & ->)|[(-> & ->)|(bs & tg & -> & -> & -> & Hok)]]; cbn [kshape] in Hs; cbn [Es].
+        destruct Hrk as [(r & -> & ->)|[(-> & ->)|(bs & -> & -> & [(tg & -> & Hok)|(-> & Hos)])]]; cbn [kshape] in Hs; cbn [Es].
+        4: { (* Option of the non-null arm: no common tag, the arm exact at the inner type *)
+          destruct bs as [|a [|b [|]]]; try contradiction. destruct Hs as (i & Hd & Hsh).
+          unfold has in Hd. cbn [union_x]. rewrite Hd. cbn [wrapper_of forallb]. rewrite andb_true_r.
+          cbn [frag_kind] in Hf. cbn beta iota in Hne. cbn [OForall] in IHone.
+          unfold opt_shape in Hos.
+          destruct ((2 <=? length [a; b])%nat && (length (filter (fun b0 => negb (nullish b0)) [a; b]) =? 1)%nat) eqn:Hcnt; [|discriminate].
+          apply andb_true_iff in Hcnt. destruct Hcnt as [_ Hcnt]. cbn [filter] in Hcnt.
+          assert (Hnull : forall n, nullish n = true -> plain_null n = true -> null_only n = true /\ sch_props n = []).
+          { intros n Hn1 Hn2. unfold plain_null, scalar_arm in Hn2. destruct_matches Hn2; try discriminate Hn1.
+            all: repeat match type of Hn2 with context [if ?c then _ else _] => destruct c eqn:? end; try discriminate Hn2.
+            all: split; reflexivity. }
+          destruct (nullish a) eqn:Hna; destruct (nullish b) eqn:Hnb; cbn [negb length Nat.eqb] in Hcnt; try discriminate Hcnt;
+            cbn [andb orb] in Hos.
+          - destruct (plain_null a) eqn:Hpa; [|discriminate Hos]. destruct (Hnull a Hna Hpa) as [Hno Hpr].
+            apply andb_true_iff in Hf. destruct Hf as [_ Hfb].
+            assert (Hct : common_tag [a; b] = None) by (unfold common_tag; rewrite Hpr; reflexivity).
+            rewrite Hct, Hno. cbn [is_none andb orb].
+            rewrite (E_exact b i (Forall_inv (Forall_inv_tail IHone)) Hfb Hne Hsh). apply orb_true_r.
+          - destruct (plain_null b) eqn:Hpb; [|discriminate Hos]. destruct (Hnull b Hnb Hpb) as [Hno Hpr].
+            apply andb_true_iff in Hf. destruct Hf as [_ Hfa].
+            assert (Hct : common_tag [a; b] = None).
+            { unfold common_tag. match goal with |- match filter ?f ?l with _ => _ end = None => assert (Hfl : filter f l = []) end.
+              { apply filter_none. intros tg0 _. cbn [forallb]. unfold branch_tag_of at 2. rewrite Hpr. cbn [assoc is_some andb].
+                rewrite andb_false_r. reflexivity. }
+              rewrite Hfl. reflexivity. }
+            rewrite Hct, Hno. cbn [is_none andb orb]. rewrite ?orb_true_r, ?andb_true_r.
+            rewrite (E_exact a i (Forall_inv IHone) Hfa Hne Hsh). apply orb_true_r. }
         * destruct Hs as (Hri & _). apply refx_here. apply mem_pair_x_index. exact Hri.
         * subst oneo. unfold has in Hs. rewrite (gp_leaf _ _ _ _ _ _ _ _ _ _ _ _ _ _ _ Hs I). reflexivity.
         * destruct tg as [|tg|tg ct|].
